@@ -1,3 +1,4 @@
 // independent encoders
 pub mod zipw;
 pub mod xlsx;
+pub mod ods;
